@@ -115,7 +115,7 @@ func main() {
 	rep := hlib.NewReport("C09", "non-trivial = a case whose observed result is not the trivial early outcome: log/entropy of an argument >= 2 that is not a power of two; CalcDifficulty through the retarget formula; CalcOrder that passes the seal check; verifyHeader on a fabricated valid child or a single-field deviation of it; a cache history with at least one hit; fingerprint = kind + outcome class")
 	header := "From Coq Require Import List ZArith Bool NArith.\nFrom GQ Require Import Generated.C09Params Model.C09.\nImport ListNotations.\nLocal Open Scope Z_scope.\n"
 	cw := hlib.NewCaseWriter(f.Out, header, "C09.case", 60)
-	c := &ctxT{rep: rep, cw: cw, rng: hlib.NewRng(f.Seed)}
+	c := &ctxT{rep: rep, cw: cw, rng: hlib.NewRng(f.Seed).Fork()} // Fork: consecutive seeds of hlib.NewRng are shifts of ONE stream; the mixed fork decorrelates them
 
 	if f.Replay != "" {
 		var cs Case
